@@ -21,6 +21,8 @@
      [e |-> "not" | "neg" | "abs" | "isna" | "notna", x |-> x]
      [e |-> "isin",  x |-> x, vals |-> <<i, ...>>]
      [e |-> "fillna", x |-> x, v |-> i]
+     [e |-> "replace", x |-> x, k |-> i, v |-> i]                x.replace(k, v)
+     [e |-> "round", x |-> x]                                    x.round()  (cells are integral: the identity)
      [e |-> "clip",  x |-> x, lo |-> i | NA, hi |-> i | NA]      NA = no bound; lo <= hi
      [e |-> "map",   x |-> x, pairs |-> <<<<k, v>>, ...>>]       Series.map(dict)
      [e |-> "astype", x |-> x, to |-> "i" | "f"]
@@ -44,7 +46,9 @@
      [op |-> "tail",    n |-> n]                       T.tail(n)           (last partition only)
      [op |-> "loc",     a |-> i | NA, b |-> i | NA]    T.loc[a:b]          (sorted index)
      [op |-> "seq",     first |-> op, second |-> op]   second applied to the result of first (a
-                                                       two-step program: dask optimizes it as a whole)
+                                                       two-step program: dask optimizes it as a whole;
+                                                       an optional field `tag` names the family of the
+                                                       enumeration it belongs to and means nothing)
    OPERATIONS on two tables L, R with their own indexes and partitionings:
      [op |-> "abin",  f |-> arith, lc |-> c, rc |-> d]      L[c] f R[d]        (outer alignment)
      [op |-> "afbin", f |-> arith, cols |-> <<names>>]      L[[names]] f R[[names]]
@@ -92,6 +96,8 @@ Eval(T, x, self) ==
     [] x.e = "isin"  -> LET c == Eval(T, x.x, self)
                         IN un(c, LAMBDA v : Bool(v # NA /\ \E j \in DOMAIN x.vals : x.vals[j] = v), "b")
     [] x.e = "fillna" -> LET c == Eval(T, x.x, self) IN un(c, LAMBDA v : IF v = NA THEN x.v ELSE v, c.kind)
+    [] x.e = "replace" -> LET c == Eval(T, x.x, self) IN un(c, LAMBDA v : IF v = x.k THEN x.v ELSE v, c.kind)
+    [] x.e = "round" -> Eval(T, x.x, self)
     [] x.e = "clip"  -> LET c == Eval(T, x.x, self) IN un(c, LAMBDA v : ClipCell(v, x.lo, x.hi), c.kind)
     [] x.e = "map"   -> LET c == Eval(T, x.x, self)
                             r == un(c, LAMBDA v : IF v = NA THEN NA ELSE Lookup(x.pairs, v), "i")
